@@ -262,6 +262,11 @@ def AllocatedUntouched() -> "bool":
     return forall(lambda r: implies(old(allocated(r)), Untouched(r)), "ProvRecord")
 
 
+@spec
+def NewFrom(recs: "Seq[ProvRecord]", start: "int") -> "bool":
+    return forall(lambda j: implies(start <= j and j < seq_len(recs), fresh(seq_nth(recs, j))), "int")
+
+
 @contract("prov.model.ProvBundle.__init__", props=["C09", "C12", "C18"])
 def ProvBundle_init(self: "ProvBundle", records: "none" = None, identifier: "Opt[QN]" = None,
                     namespaces: "Opt[Seq[Ns]]" = None, document: "Opt[ProvDocument]" = None) -> "none":
@@ -317,6 +322,9 @@ def ProvBundle_update(self: "ProvBundle", other: "ProvBundle") -> "none":
     invariant("L1", "copied", CopiedUpTo(self._records, old(seq_len(self._records)), old(other._records), _i))
     invariant("L1", "sources-untouched", AllocatedUntouched())
     invariant("L1", "other-kept", same(other._records, old(other._records)) and same(self._namespaces, old(self._namespaces)))
+    # C12: what is appended are new objects (never other's record objects themselves)
+    invariant("L1", "new-records-fresh", NewFrom(self._records, old(seq_len(self._records))))
+    ensures("new-records-fresh", NewFrom(self._records, old(seq_len(self._records))))
     ensures("count", seq_len(self._records) == old(seq_len(self._records)) + old(seq_len(other._records)))
     ensures("old-records-kept", forall(lambda j: implies(0 <= j and j < old(seq_len(self._records)),
                                                          seq_nth(self._records, j) == old(seq_nth(self._records, j))), "int"))
@@ -401,3 +409,77 @@ def ProvDocument_bundle(self: "ProvDocument", identifier: "Val") -> "ProvBundle"
     ensures("doc-own", DocOwn(self))
     note("not proved here: BundlesOK(self) for the bundles that were already there (their objects are untouched: "
          "other-bundles-kept + the frame); the solvers time out on the combined statement")
+
+
+inline("prov.model.NamespaceManager.get_registered_namespaces", "prov.model.ProvBundle.get_registered_namespaces")
+
+
+@contract("prov.model.ProvBundle.namespaces", props=["C09", "C12"])
+def ProvBundle_namespaces(self: "ProvBundle") -> "Seq[Ns]":
+    pure()
+    requires("inv", NSM_Local(self._namespaces))
+    note("the result is a python set; it is modelled as a list of its members in some order")
+    ensures("registered-namespaces", forall_in(result, lambda n: n.prefix in self._namespaces._namespaces
+                                               and same(self._namespaces._namespaces[n.prefix], n)))
+    ensures("usable-as-constructor-argument", NamespacesArgOK(some(result)))
+
+
+@spec
+def DocUnchanged(d: "ProvDocument") -> "bool":
+    return same(d._bundles, old(d._bundles)) and same(d._records, old(d._records)) and same(d._id_map, old(d._id_map))
+
+
+@contract("prov.model.ProvDocument.add_bundle", props=["C09", "C12"])
+def ProvDocument_add_bundle(self: "ProvDocument", bundle: "ProvBundle", identifier: "Val" = None) -> "none":
+    note("stated for a ProvBundle/ProvDocument argument (anything else raises ProvException in the first branch)")
+    requires("doc-own", DocOwn(self))
+    requires("argument", bundle != self and allocated(bundle) and Idx(bundle) and NSM_Local(bundle._namespaces)
+             and allocated(bundle._namespaces) and bundle._namespaces != self._namespaces
+             and (bundle._namespaces.parent is None or bundle._namespaces.parent == self._namespaces)
+             and implies(bundle._identifier is not None, QNameOK(bundle._identifier)) and RecordsSourceOK(bundle)
+             and InvHanded(bundle._namespaces))
+    requires("identifier", IdArgOK(identifier))
+    allocates("ProvBundle", "NamespaceManager", "ProvRecord")
+    modifies(self, "_bundles")
+    modifies(bundle, "_identifier", "_document")
+    modifies(bundle._namespaces, "parent", "<dict>", "_namespaces", "_uri_map", "_rename_map", "_prefix_renamed_map", "_default")
+    modifies(self._namespaces, "<dict>", "_namespaces", "_uri_map", "_rename_map", "_prefix_renamed_map", "_default")
+    # refusals leave the document as it was (C09)
+    raises(ProvException, ensures=DocUnchanged(self))
+    raises(ValueError, ensures=DocUnchanged(self))
+    raises(TypeError, ensures=DocUnchanged(self))
+    ensures("own-records-kept", same(self._records, old(self._records)) and same(self._id_map, old(self._id_map)))
+    ensures("one-bundle-added", exists(lambda u: not old(qm_has(self._bundles, u)) and qm_has(self._bundles, u)
+                                       and forall(lambda w: implies(w != u, qm_has(self._bundles, w) == old(qm_has(self._bundles, w))
+                                                                    and implies(qm_has(self._bundles, w), qm_get(self._bundles, w) == old(qm_get(self._bundles, w)))), "str")
+                                       and Attached(self, bundle, qm_get(self._bundles, u), u), "str", hint="valid_id_uri"))
+
+
+@spec
+def Attached(d: "ProvDocument", arg: "ProvBundle", b: "ProvBundle", u: "str") -> "bool":
+    """b is what ended up registered under u: the argument itself when it is a plain bundle, a new bundle with
+    content-equal copies of all its records when it is a (bundle-free) document"""
+    return (b._identifier is not None and b._identifier.uri == u and b._document is not None and b._document == d
+            and b._namespaces.parent is not None and b._namespaces.parent == d._namespaces
+            and (b == arg if not old(isinst(arg, "ProvDocument"))
+                 else (fresh(b) and fresh(b._namespaces) and seq_len(b._records) == old(seq_len(arg._records))
+                       and CopiedUpTo(b._records, 0, old(arg._records), old(seq_len(arg._records))))))
+
+
+# ---------------------------------------------------------------------------------------------- record copy (C12, C08)
+@contract("prov.model.ProvRecord.copy", props=["C12", "C08"])
+def ProvRecord_copy(self: "ProvRecord") -> "ProvRecord":
+    note("the copy belongs to the same bundle object (documented: 'exact copy'); C12's claim is about the record's "
+         "own content: a new object with its own attribute table")
+    requires("record", SourceOK(self) and self._bundle is not None and BundleInv(self._bundle))
+    requires("known-kind", table_has(PROV_REC_CLS, self._prov_type))
+    allocates("ProvRecord")
+    modifies(self._bundle._namespaces, "<dict>", "_namespaces", "_uri_map", "_rename_map", "_prefix_renamed_map", "_default")
+    raises(ProvException)
+    raises(ValueError)
+    raises(TypeError)
+    ensures("fresh", fresh(result))
+    ensures("same-bundle", result._bundle is not None and result._bundle == self._bundle)
+    ensures("source-unchanged", same(self._attributes, old(self._attributes)) and same(self._identifier, old(self._identifier)))
+    ensures("bundle-records-unchanged", same(self._bundle._records, old(self._bundle._records)))
+    ensures("nf", NF(result))
